@@ -9,6 +9,7 @@ exactly that wrap).  Release-once and "never called again" are Spec.Core's C06 c
 import Verif.Inv.Slots
 import Verif.Props.C20
 import Verif.Model.Loop
+import Verif.Inv.TokInv
 
 namespace Verif.Props.C06
 open Verif.Token Verif.Slots Verif.Loop
@@ -40,5 +41,23 @@ theorem C06_wrap_false :
 /-- removing one source leaves every other slot's lookup untouched -/
 theorem removal_frame (ss : Slots) (i : Nat) (t : Tok) (h : t.id ≠ i) :
     Slots.get (setOcc ss i none) t = Slots.get ss t := Verif.Inv.Slots.setOcc_other ss i none t h
+
+/-! ### the whole loop -/
+
+/-- **After every history** of operations, callback programs and dispatches — not aborted by a panic, no generation
+    wrapped on the way (`aliased`, finding F12), no source object inserted twice (`dupInsert`, impossible in Rust) —
+    a registration token the user was handed resolves, if it resolves at all, to the source it was issued for. -/
+theorem token_reaches_only_its_source (ops : List Verif.Loop.Op) (hab : (Verif.Loop.run ops).aborted = false)
+    (hna : (Verif.Loop.run ops).aliased = false) (hnd : (Verif.Loop.run ops).dupInsert = false)
+    (k : Nat) (tok : Verif.Token.Tok) (d : Nat) (hk : Verif.Loop.alookup (Verif.Loop.run ops).tokens k = some tok)
+    (hd : Verif.Loop.slotDisp (Verif.Loop.run ops) tok = some d) : d = k :=
+  Verif.Inv.TokInv.token_reaches_only_its_source ops hab hna hnd k tok d hk hd
+
+/-- … no dispatcher sits in two slots, and the user's token for the occupant of a slot is that slot's own token -/
+theorem occupants_unique_and_known (ops : List Verif.Loop.Op) (hab : (Verif.Loop.run ops).aborted = false)
+    (hna : (Verif.Loop.run ops).aliased = false) (hnd : (Verif.Loop.run ops).dupInsert = false) :
+    Verif.Inv.TokInv.U (Verif.Loop.run ops).slots ∧
+    Verif.Inv.TokInv.SP (Verif.Loop.run ops).slots (Verif.Loop.run ops).tokens none :=
+  Verif.Inv.TokInv.occupants_unique_and_known ops hab hna hnd
 
 end Verif.Props.C06
